@@ -171,7 +171,7 @@ where
     );
     // (c) mismatched lengths
     let lens = [0usize, 1, 2, 5];
-    let rad = [4u64, 4, 22];
+    let rad = [4u64, 4, 23];
     ctx.sweep(
         &format!("{}.mismatched_lengths", name),
         crate::infra::space(&rad),
@@ -198,9 +198,12 @@ where
                 } else if d[2] == 20 {
                     C::A::sum_of_products(&pts, &sc)
                 } else {
+                    // path 21: table for exactly the points given; path 22: a table that covers 5 bases (a fixed-base
+                    // table used on a prefix of its bases)
+                    let nt = if d[2] == 21 { np } else { 5 };
                     let mut pre: Vec<C::A> = vec![];
-                    for &j in &pidx {
-                        pre.extend_from_slice(&tables[j]);
+                    for t in 0..nt {
+                        pre.extend_from_slice(&tables[1 + (t * 7 + 3) % (n - 1)]);
                     }
                     C::A::sum_of_products_precomp_256(&pts, &sc, &pre)
                 }
